@@ -230,9 +230,12 @@ func genC17(tier string) []Scenario {
 			if anyExec {
 				menu = anyMenu
 			}
-			n := 2
+			n, bd := 2, 0
+			if tier == "thorough" {
+				n, bd = 3, 2
+			}
 			sc := batchScn{name: fmt.Sprintf("styles-batch n=%d c=%d anyExec=%v", n, c, anyExec), n: n, c: c, budget: 1, shape: shResults, yield: c > 0, anyExec: anyExec,
-				execMenu: menu, postMenu: postX, bound: 0, chkPositional: true}
+				execMenu: menu, postMenu: postX, bound: bd, chkPositional: true}
 			out = append(out, sc.scenario())
 		}
 	}
